@@ -353,6 +353,25 @@ def _ops_loop(p, rnd, dom, pk, nops, add, remove, size_positions, cov):
         if op < 0.35:
             pos = rnd.choice(size_positions)
             rule = dict(rnd.choice(dom))
+            occupied = [i for i, r in enumerate(p.ref.rules) if r is not None]
+            if occupied and rnd.random() < 0.45:
+                # overwrite an occupied position with a near-copy of the rule that is there: exactly one field changed - set, unset,
+                # or (for addresses) only the wildcard changed - or the action flipped; the position must then hold exactly the new rule
+                pos = rnd.choice(occupied)
+                rule = dict(p.ref.rules[pos])
+                f = rnd.choice(["protocol", "src", "dst", "sport", "dport", "action", "srcw", "dstw"])
+                if f == "action":
+                    rule["action"] = "PERMIT" if rule["action"] == "DENY" else "DENY"
+                elif f in ("src", "dst"):
+                    rule[f], rule[f + "w"] = rnd.choice([(None, None)] + [x for x in addr_specs() if x[0] is not None])
+                elif f in ("srcw", "dstw"):
+                    if rule[f[:-1]] is not None:
+                        rule[f] = rnd.choice([w for w in WILDS + NONCONTIG[:2] if w != rule[f]])
+                elif f == "protocol":
+                    rule[f] = rnd.choice([x for x in PROTOS if x != rule[f]])
+                else:
+                    rule[f] = rnd.choice([x for x in RPORTS if x != rule[f]])
+                cov.inc("overwrites_with_near_copy")
             p.log.append(("add", pos, fmt_rule(rule)))
             ok = add(pos, rule)
             if 0 <= pos < 24:
@@ -582,7 +601,7 @@ class Check:
         "out-of-range positions: only 'no position changed' is judged here (status/exception is C05's concern)",
         "router default rules (22: ARP permit, 23: ICMP permit) are part of the documented initial list",
     ]
-    min_monitor = {"verdicts": 5000, "vector_compares": 100, "shadowed_verdicts": 50, "random_wildcard_rules": 40}
+    min_monitor = {"verdicts": 5000, "vector_compares": 100, "shadowed_verdicts": 50, "random_wildcard_rules": 40, "overwrites_with_near_copy": 100}
     case_timeout = {"quick": 1200, "thorough": 3600}
 
     def cases(self, tier, seed):
